@@ -366,7 +366,9 @@ def map_value(model, o):
     store/select terms are not enumerable in general; evaluate the domain array
     as a function graph"""
     dom = model.eval(o.dom, model_completion=True)
-    keys = set()
+    # an integer constant the model leaves unassigned evaluates to 0 under model completion (that is what the
+    # rebuilt pre-state uses for it), so 0 is always a candidate key
+    keys = {0}
     # candidate keys: every integer constant of the model (parameters, havoc'd locals, ...)
     try:
         for d in model.decls():
